@@ -142,6 +142,8 @@ class Project:
                     tree = ast.parse(source, filename=rel)
                 except (SyntaxError, UnicodeDecodeError) as e:
                     raise AnalysisError(f'cannot parse {rel}: {e}')
+                from .normalize import normalize
+                tree = normalize(tree)
                 set_parents(tree)
                 modname = rel[:-3].replace(os.sep, '.')
                 if modname.endswith('.__init__'):
